@@ -18,6 +18,7 @@ CONSTANTS
   RearmPerRead = FALSE
   NoCloseOnError = TRUE
   RearmAfterConnect = FALSE
+  UdpStrays = "none"
 VIEW View
 CHECK_DEADLOCK FALSE
 INVARIANT Released
